@@ -48,8 +48,10 @@ def hx(x):
     return "nan" if x != x else ("inf" if x == math.inf else ("-inf" if x == -math.inf else x.hex()))
 
 
-def build(recipe):
-    """the object of a recipe; None when the recipe cannot be built (an edit does not apply)"""
+def build(recipe, info=None):
+    """the object of a recipe; None when the recipe cannot be built (an edit does not apply).  `info["at_read"]` receives the harness's
+    own copy of the index taken straight after read() (None for an object built from scratch): the oracle decides 'the index was
+    changed in memory' from this copy, never from lasio's own bookkeeping (LASFile.index_initial)"""
     import lasio
     import numpy as np
     from lasio import HeaderItem
@@ -61,6 +63,14 @@ def build(recipe):
             las = lasio.read(b["text"], **b.get("read_kw", {}))
         else:
             las = lasio.read(os.path.join(EX, b["file"]), **b.get("read_kw", {}))
+        if info is not None:
+            info["at_read"] = None
+            if b["kind"] != "spec":
+                try:
+                    info["at_read"] = np.array(las.index, copy=True)
+                except Exception:
+                    info["at_read"] = None
+                    info["no_index"] = True
         for e in recipe.get("edits", []):
             op = e[0]
             if op == "index_set":
@@ -97,9 +107,14 @@ def build(recipe):
 
 
 def write(las, cfg):
+    """`cfg["sss"]` (optional): the STRT / STOP / STEP keyword arguments as encoded values (lasobj.dec; ["none"] = not given)"""
     s = io.StringIO()
     kw = dict(cfg)
     kw["column_fmt"] = {int(k): v for k, v in cfg["column_fmt"]}
+    sss = kw.pop("sss", None)
+    if sss is not None:
+        for name, v in zip(SSS, sss):
+            kw[name] = lo.dec(v)
     las.write(s, **kw)
     return s.getvalue()
 
@@ -330,20 +345,37 @@ def model_cfg(cfg):
             "data_section_header": cfg["data_section_header"], "mnemonics_header": cfg["mnemonics_header"]}
 
 
+def wo_request(cfg, mo, sd):
+    """the model request of one write; None when a STRT / STOP / STEP keyword value is outside the model's value types"""
+    req = {"op": "wo.write", "cfg": model_cfg(cfg), "obj": mo, "step_diff": sd}
+    if cfg.get("sss") is not None:
+        vals = [pval(lo.dec(v)) for v in cfg["sss"]]
+        if any(v is None for v in vals):
+            return None
+        req["sss"] = vals
+    return req
+
+
 EXC = {"KeyError": "KeyError", "IndexError": "IndexError", "AttributeError": "Other", "AssertionError": "Other", "TypeError": "TypeError",
        "ValueError": "ValueError"}
 
 
 # ------------------------------------------------------------------------------------------------ the oracle's own readings
-def refresh_condition(las):
+def refresh_condition(las, info=None):
     """'the index was created or changed in memory or the file's STOP disagreed with its data' read on the object BEFORE its
-    first write (None = not decidable: no index / STOP missing)"""
+    first write (None = not decidable: no index / STOP missing).  With `info` (from build) the as-read index is the harness's own
+    copy; lasio's index_initial is not consulted."""
     import numpy as np
     try:
         idx = np.asarray(las.index)
     except Exception:
         return None
-    ii = las.index_initial
+    if info is not None and "at_read" in info:
+        if info.get("no_index"):
+            return None
+        ii = info["at_read"]
+    else:
+        ii = las.index_initial
     if ii is None:
         return "created"
     try:
@@ -440,12 +472,13 @@ def units_after(snap):
 # ------------------------------------------------------------------------------------------------ one history
 def history(run, recipe, cfgs, tags, pend, nontriv=None):
     """`cfgs`: the option records of the successive writes (equal records = the idempotence clause applies between them)"""
-    las = build(recipe)
+    info = {}
+    las = build(recipe, info)
     if las is None:
         run.dist["recipe-not-buildable"] += 1
         return
     case = {"recipe": recipe, "cfgs": cfgs}
-    cond = refresh_condition(las)
+    cond = refresh_condition(las, info)
     edited = recipe["base"]["kind"] != "spec" and bool(recipe.get("edits"))
     run.case(case, nontrivial=bool(cond) or edited if nontriv is None else nontriv,
              tags=list(tags) + ["refresh=%s" % cond, "writes=%d" % len(cfgs), "version=%s" % cfgs[0]["version"], "wrap=%s" % cfgs[0]["wrap"]])
@@ -470,8 +503,9 @@ def history(run, recipe, cfgs, tags, pend, nontriv=None):
         for clause, detail in frame(before, after, cfg, raised=exc is not None):
             run.fail(clause, wcase, detail)
         # ---- correspondence
-        if mo is not None:
-            pend.append((wcase, {"op": "wo.write", "cfg": model_cfg(cfg), "obj": mo, "step_diff": sd}, text, exc, model_obj(las)))
+        req = wo_request(cfg, mo, sd) if mo is not None else None
+        if req is not None:
+            pend.append((wcase, req, text, exc, model_obj(las)))
         else:
             run.dist["outside-model-domain:" + (why[0] if why else "no-driver")] += 1
         if exc is not None:
@@ -487,7 +521,7 @@ def history(run, recipe, cfgs, tags, pend, nontriv=None):
         # ---- truthfulness
         for clause, detail in units_after(after):
             run.fail(clause, wcase, detail)
-        if cond and idx is not None:
+        if cond and idx is not None and cfg.get("sss") is None:
             fails, skip = truth(text, idx, cfg)
             if skip:
                 run.dist["truth-" + skip] += 1
@@ -611,10 +645,17 @@ def gen_cfg(rng, plain=False):
         cf = [[0, rng.choice(["%.3f", "%.1f", "%12.6f"])]]
     if rng.random() < 0.1:
         cf = cf + [[rng.randint(1, 3), rng.choice(["%.1f", "%.6f"])]]
-    return dict(version=rng.choice([1.2, 2.0, None]), wrap=rng.choice([None, True, False]), fmt=fmt, column_fmt=cf,
-                len_numeric_field=rng.choice([None, None, -1, 12, 16]), lhs_spacer=rng.choice([" ", "", "  "]),
-                spacer=rng.choice([" ", "  ", "\t"]), data_width=rng.choice([79, 40, 120]), header_width=rng.choice([60, 60, 40, 5]),
-                mnemonics_header=rng.random() < 0.3, data_section_header=rng.choice(["~ASCII", "~A", "~Ascii Log Data"]))
+    cfg = dict(version=rng.choice([1.2, 2.0, None]), wrap=rng.choice([None, True, False]), fmt=fmt, column_fmt=cf,
+               len_numeric_field=rng.choice([None, None, -1, 12, 16]), lhs_spacer=rng.choice([" ", "", "  "]),
+               spacer=rng.choice([" ", "  ", "\t"]), data_width=rng.choice([79, 40, 120]), header_width=rng.choice([60, 60, 40, 5]),
+               mnemonics_header=rng.random() < 0.3, data_section_header=rng.choice(["~ASCII", "~A", "~Ascii Log Data"]))
+    if rng.random() < 0.12:
+        # STRT / STOP / STEP passed by the caller (model `writeObjK`): frame, determinism and correspondence; the truthfulness
+        # clause is about the values lasio computes itself and is not evaluated for these writes
+        val = lambda: rng.choice([["none"], ["none"], ["f", float(rng.choice([0.0, 1.5, 100.0, -3.25])).hex()], ["i", rng.choice([0, 7, 2000])],
+                                  ["s", rng.choice(["", "12.5", "top"])]])
+        cfg["sss"] = [val(), val(), val()]
+    return cfg
 
 
 def gen_cfgs(rng):
@@ -710,7 +751,10 @@ def gen_text(rng):
     well = ["%s.%s %s : start" % (case("STRT"), wu, repr(xs[0])), "%s.%s %s : stop" % (case("STOP"), wu, stop)]
     r = rng.random()
     if r < 0.85:
-        well.append("%s.%s %s : step" % (case("STEP"), rng.choice([wu, wu, "M"]), fnum(rng, xs[1] - xs[0]) if len(xs) > 1 else "0"))
+        step_txt = fnum(rng, xs[1] - xs[0]) if len(xs) > 1 else "0"
+        if rng.random() < 0.15:
+            step_txt = rng.choice(["0", "0.0", "0.5", "-1", ""])      # a STEP that does not describe the data (irregular sampling: 0)
+        well.append("%s.%s %s : step" % (case("STEP"), rng.choice([wu, wu, "M"]), step_txt))
     if rng.random() < 0.9:
         well.append("%s. %s : null" % (case("NULL"), rng.choice(["-999.25", "-9999", "-999.25"])))
     well += ["COMP. ACME : company", "EMPTYU.K  : empty with unit", "DATE. 2001-01-01 : d"]
